@@ -4,6 +4,9 @@ import json, os
 HERE = os.path.dirname(os.path.abspath(__file__))
 
 CHECKS = {
+ "C08": ("differential simulation: generated protothread programs run stacklessly (header under test) and as stackful coroutines (independent reference header) in lock step under one seeded schedule of resumptions and environment changes",
+         "Programs are generated from the PT_* grammar (effects, yields, waits, wait-untils with observable re-evaluation, if/else, bounded loops, exits/fails, spawned and called children to depth 3) from VERIF_SEED at every build and the same body text is compiled against include/librfn/protothreads.h and against a reference header that implements the macros over swapcontext coroutines; the tape chooses the program, environment flips, spurious resumptions and re-initialisation after exit; after every invocation the returned state, the effects executed and all persistent variables must be equal.",
+         "The reference header is the trusted base; the generator keeps to the property's scope (one blocking macro per line, none inside a switch, PT_CHILD_OK consulted before the next blocking point, PT_CALL only of children without environment-dependent waits)."),
  "C15": ("seeded character streams delivered three ways (console_process; console_eval from a second fibre under the real scheduler; console_putchar from simulated interrupts/threads with ring overflow) against a reference line editor, tokeniser and dispatcher; ASan exact-size console, bounds monitor",
          "Seeded exploration of registration orders and counts (0-35 commands, beyond the table capacity) and of character streams (clean and messy lines, quotes, backspace, Ctrl-C, lines padded to 76-82 characters, yielding/sleeping/failing commands with input arriving meanwhile) through all three delivery paths; what each command saw (argc, argv copies, pointer containment in the line buffer) and the unknown-command output are compared with a reference editor/tokeniser applied to exactly the characters that entered the ring; eval injections must complete and execute each line once.",
          "Lines beginning with white space or a quote, empty quotes, unterminated quotes and text glued to quotes are judged for safety, containment and dispatch only (the statement does not define their arguments); the character arriving when 79 are held is always followed by a junk line so both readings of its fate agree."),
